@@ -79,7 +79,9 @@ AddAEC(aecs, key) ==
     ELSE Append(aecs, [key |-> key, n |-> 1])
 
 (* ignored altogether when the address-event / malformed-message hint is off *)
-BlkAEC(b, rec, st) == IF ~AECEnabled(HintsOf(b.bp)) THEN b ELSE WithStats([b EXCEPT !.aecs = AddAEC(@, rec)], st)
+(* the count member of a generic address event is an OUTPUT of reading; what a caller leaves in it is not part of the key *)
+AecKeyIn(rec) == [f \in (DOMAIN rec \ {"ae_count_in"}) |-> rec[f]]
+BlkAEC(b, rec, st) == IF ~AECEnabled(HintsOf(b.bp)) THEN b ELSE WithStats([b EXCEPT !.aecs = AddAEC(@, AecKeyIn(rec))], st)
 BlkMM(b, rec, st) ==
     IF ~MMEnabled(HintsOf(b.bp)) THEN b
     ELSE LET b0 == [b EXCEPT !.et = Earliest(b, rec, b.bp.tps)]
